@@ -53,7 +53,9 @@ func VerifTreeOf(m *RedisMessage) (t VerifTree) {
 func VerifReadNextMessage(r *bufio.Reader) (RedisMessage, error) { return readNextMessage(r) }
 
 // VerifStreamTo is streamTo.
-func VerifStreamTo(r *bufio.Reader, w io.Writer) (n int64, err error, clean bool) { return streamTo(r, w) }
+func VerifStreamTo(r *bufio.Reader, w io.Writer) (n int64, err error, clean bool) {
+	return streamTo(r, w)
+}
 
 // VerifWriteCmd is writeCmd (no flush).
 func VerifWriteCmd(w *bufio.Writer, cmd []string) error { return writeCmd(w, cmd) }
